@@ -104,10 +104,24 @@ class Project(object):
             raise ImportError(name)
 
         path = self.get_path()
+        parts = name.split('.')
+        if len(parts) > 1:
+            # a dotted name is searched inside the parent the import system
+            # resolves first, not under every root
+            try:
+                parent = self.get_module(name.rpartition('.')[0])
+            except ImportError:
+                # neither a module nor a regular package: a plain directory
+                # (searched under every root, like a namespace package)
+                pass
+            else:
+                path = parent.search_path
+                parts = parts[-1:]
+
         filename = None
         is_source = False
         for p in path:
-            mpath = os.path.join(p, *name.split('.'))
+            mpath = os.path.join(p, *parts)
             for s in SUFFIXES:
                 fname = mpath + s
                 if os.path.exists(fname):
